@@ -38,6 +38,10 @@ def gen(name, fn, **kw):
     return d
 
 
+# stages run with an application allocator that is not libc's (the driver tracks what it handed out; a block it
+# never handed out that reaches its free() from inside a library call aborts the case)
+TRACK = dict(extra=("--track-alloc",))
+
 PROPS = {}
 HOOK_COMMITS = []
 NOT_YET = {}
@@ -46,7 +50,7 @@ PROPS["C16"] = dict(
     level="model_checking", leak_every=25, exhaustive=True,
     stages=lambda tier, seed: [
         mc("seq", "MC_C16", "MC_C16_%s.cfg" % tier, expand=G.under_provider(4)),
-        gen("walk", G.c16_walks(40 if tier == "quick" else 600, 300)),
+        gen("walk", G.c16_walks(40 if tier == "quick" else 600, 300), dopts=TRACK),
     ],
     rule=
          "all sequences of keyring mutators up to MaxLen (4 quick / 5 thorough) over an alphabet of 7 loads and removals"
@@ -96,7 +100,7 @@ PROPS["C15"] = dict(
 
 PROPS["C02"] = dict(
     level="model_checking", exhaustive=True,
-    stages=lambda tier, seed: [mc("matrix", "MC_C02", "MC_C02_%s.cfg" % tier), gen("apiwalk", G.api_walks(300 if tier == "quick" else 20000, 60))],
+    stages=lambda tier, seed: [mc("matrix", "MC_C02", "MC_C02_%s.cfg" % tier), gen("apiwalk", G.api_walks(300 if tier == "quick" else 20000, 60), dopts=TRACK)],
     rule=
          "finite matrix enumerated by TLC from MC_C02: (A) configured alg x key (absent, or key type x alg attribute "
          "incl. none, unknown and a family prefix such as HS) x {setkey, callback} on checker and builder; (B) every "
@@ -120,7 +124,7 @@ PROPS["C02"] = dict(
 
 PROPS["C03"] = dict(
     level="model_checking", exhaustive=True,
-    stages=lambda tier, seed: [mc("matrix", "MC_C03", "MC_C03_%s.cfg" % tier), gen("apiwalk", G.api_walks(300 if tier == "quick" else 20000, 60))],
+    stages=lambda tier, seed: [mc("matrix", "MC_C03", "MC_C03_%s.cfg" % tier), gen("apiwalk", G.api_walks(300 if tier == "quick" else 20000, 60), dopts=TRACK)],
     rule=
          "finite matrix from MC_C03: checker set-ups (key loaded but not set / set with or without explicit alg; key "
          "with and without alg attribute) x callback {none, empty, sets key, sets alg, sets both, key + alg none} x "
@@ -189,7 +193,7 @@ PROPS["C09"] = dict(
 
 PROPS["C14"] = dict(
     level="model_checking", exhaustive=True,
-    stages=lambda tier, seed: [mc("causes", "MC_C14", "MC_C14_%s.cfg" % tier), gen("apiwalk", G.api_walks(300 if tier == "quick" else 20000, 60))],
+    stages=lambda tier, seed: [mc("causes", "MC_C14", "MC_C14_%s.cfg" % tier), gen("apiwalk", G.api_walks(300 if tier == "quick" else 20000, 60), dopts=TRACK)],
     rule=
          "one script per failure cause from MC_C14: 40 failing token classes (NULL/empty, missing dots, header not "
          "base64 / not JSON / not an object / without or with non-string or unknown alg, payload not base64 / not JSON, "
@@ -240,7 +244,7 @@ PROPS["C04"] = dict(
 
 PROPS["C19"] = dict(
     level="model_checking", exhaustive=True,
-    stages=lambda tier, seed: [mc("progs", "MC_C19", "MC_C19_%s.cfg" % tier), gen("apiwalk", G.api_walks(300 if tier == "quick" else 20000, 60))],
+    stages=lambda tier, seed: [mc("progs", "MC_C19", "MC_C19_%s.cfg" % tier), gen("apiwalk", G.api_walks(300 if tier == "quick" else 20000, 60), dopts=TRACK)],
     rule="from MC_C19: all callback programs of up to 2 (quick) / 3 (thorough) steps over 16 header/claim steps "
          "(delete exp/nbf/iss/aud, delete all claims, delete all headers, delete/replace header alg, replace exp/nbf "
          "with passing or failing values, set/replace iss, add aud), plus control steps (return 1, select key and/or "
@@ -260,7 +264,7 @@ PROPS["C19"] = dict(
 
 PROPS["C13"] = dict(
     level="model_checking", exhaustive=True,
-    stages=lambda tier, seed: [mc("seq", "MC_C13", "MC_C13_%s.cfg" % tier), gen("apiwalk", G.api_walks(300 if tier == "quick" else 20000, 60))],
+    stages=lambda tier, seed: [mc("seq", "MC_C13", "MC_C13_%s.cfg" % tier), gen("apiwalk", G.api_walks(300 if tier == "quick" else 20000, 60), dopts=TRACK)],
     rule=
          "from MC_C13: all sequences of length 4 (quick) / 5 (thorough) over 13 checker elements (verify valid, bad "
          "signature, expired, no dot, header not JSON, no alg, NULL, empty, algorithm mismatch, callback failing then "
@@ -285,7 +289,7 @@ PROPS["C13"] = dict(
 
 PROPS["C10"] = dict(
     level="model_checking", exhaustive=True,
-    stages=lambda tier, seed: [mc("seq", "MC_C10", "MC_C10_%s.cfg" % tier), gen("apiwalk", G.api_walks(300 if tier == "quick" else 20000, 60))],
+    stages=lambda tier, seed: [mc("seq", "MC_C10", "MC_C10_%s.cfg" % tier), gen("apiwalk", G.api_walks(300 if tier == "quick" else 20000, 60), dopts=TRACK)],
     rule=
          "from MC_C10: all sequences of 3 builder configuration calls over an alphabet of 19 (quick) / 35 (thorough) "
          "calls - header set (typ as string and as integer, user-set alg as string and as boolean, kid) and delete, "
@@ -378,7 +382,7 @@ PROPS["C06"] = dict(
     level="exploration", leak_every=20, exhaustive=False,
     stages=lambda tier, seed: [
         mc("classes", "MC_C06", "MC_C06_%s.cfg" % tier, expand=G.replicate(1 if tier == "quick" else 20)),
-        gen("fuzz", G.c06_fuzz(800 if tier == "quick" else 40000, 250), target_ops=60000),
+        gen("fuzz", G.c06_fuzz(800 if tier == "quick" else 40000, 250), target_ops=60000, dopts=TRACK),
     ],
     rule=
          "(classes) from MC_C06: every shape (NULL, empty, 0/1/2/3/4 dots, leading dot) x header class (object, "
